@@ -14,12 +14,16 @@
         check    (0) check_schema passed | (1) raised | (2) not run
         load     (0) from_json returned | (1 exn) | (2) not run
         sites    ((target (class anchor)) ...) every $ref / maxItemsDependsOn and the object it is bound to
-   (3 mutation document verdict)                             the document as JSON against the meta-schema
-        verdict  0 check_schema passed, 1 raised *)
+   (3 mutation document verdict tree texts xdocument xverdict)   the document as JSON against the meta-schema
+        verdict  0 check_schema passed, 1 raised
+        tree     the record description the document was generated from (unchanged document only; () otherwise)
+        texts    ((id unique-name data-name usage picture) ...) what the generator wrote for every entry
+        xdocument xverdict   the extended-vocabulary generator's document of the same description and check_schema's verdict
+        branch   4000 + mutation, + 100 when the extended document holds a decimal type (invalid by design) *)
 From Coq Require Import ZArith NArith List Bool.
 Import ListNotations.
 Require Import SR.Base.Sx SR.Base.Res SR.Base.Dec SR.Spec.Encode SR.Spec.Fits SR.Spec.Layout SR.Model.Layout
-  SR.Model.Estruct SR.Spec.SchemaTruth SR.Model.JsonType SR.Judge.JEstructCommon SR.Judge.JLayoutCommon.
+  SR.Model.Estruct SR.Spec.SchemaTruth SR.Model.JsonType SR.Model.SchemaDoc SR.Judge.JEstructCommon SR.Judge.JLayoutCommon.
 Open Scope Z_scope.
 
 Definition bad_case : sx := L [A 9; A 0; L [A 0]].
@@ -271,14 +275,70 @@ Definition judge_tree (c : sx) : sx :=
 
 (* ------------------------------------------------------------------ kind 3 *)
 
+(* The unchanged document arrives with the record description it was printed from and with the texts the generator
+   wrote for every entry: ((id unique-name data-name usage picture) ...).  The MODEL's document is Model/SchemaDoc.v
+   doc over Model/Layout.v build, with type / contentEncoding / conversion from Model/JsonType.v json_type on the
+   entry's USAGE and PICTURE.  The text of the cobol keyword (level + source of the entry, unconstrained by the
+   meta-schema) is not modelled: it is read back from the sub-schema of the EMITTED document that bears the entry's
+   $anchor, so the comparison decides where the keyword stands and that a table, its inner item and a $ref
+   placeholder repeat the text of their entry - not the text itself. *)
+Definition row_of (tab : list sx) (i : id) : option sx :=
+  find (fun r => N.eqb (as_N (nth_sx 0 r)) i) tab.
+Definition tab_text (tab : list sx) (col : nat) (i : id) : list N :=
+  match row_of tab i with Some r => as_Ns (nth_sx col r) | None => [] end.
+Definition tab_kw (jt : N -> list N -> res (N * N * N)) (tab : list sx) (i : id) : N * N * N :=
+  match row_of tab i with
+  | Some r => match jt (as_N (nth_sx 3 r)) (as_Ns (nth_sx 4 r)) with Ok k => k | Err _ => (0, 0, 0)%N end
+  | None => (0, 0, 0)%N
+  end.
+
+Definition jget (k : list N) (d : list (list N * jval)) : option jval :=
+  match find (fun kv => str_eqb (fst kv) k) d with Some kv => Some (snd kv) | None => None end.
+
+(* ($anchor, cobol) of every sub-schema of the emitted document that has both *)
+Fixpoint cobols (fuel : nat) (v : jval) : list (list N * list N) :=
+  match fuel with
+  | O => []
+  | S f =>
+      match v with
+      | VMap d =>
+          (match jget k_anchor d, jget k_cobol d with
+           | Some (VText a), Some (VText c) => [(a, c)]
+           | _, _ => []
+           end) ++ flat_map (fun kv => cobols f (snd kv)) d
+      | VArr l => flat_map (cobols f) l
+      | _ => []
+      end
+  end.
+
+Definition cobol_in (cs : list (list N * list N)) (name : list N) : list N :=
+  match find (fun p => str_eqb (fst p) name) cs with Some p => snd p | None => [] end.
+
+Definition model_doc (jt : N -> list N -> res (N * N * N)) (t : item) (tab : list sx) (observed : jval) : jval :=
+  let cs := cobols 200 observed in
+  doc (tab_text tab 1) (tab_text tab 2) (fun i => cobol_in cs (tab_text tab 1 i)) (tab_kw jt tab) (build t).
+
 Definition judge_meta (c : sx) : sx :=
   let mutation := as_Z (nth_sx 1 c) in
   let doc := jval_of 200 (nth_sx 2 c) in
   let passed := as_Z (nth_sx 3 c) =? 0 in
+  let has_tree := match nth_sx 4 c with L (_ :: _) => true | _ => false end in
+  let t := item_of (nth_sx 4 c) in
+  let tab := as_list (nth_sx 5 c) in
   let v := valid_schema 200 doc in
+  (* the emitted document IS the model's document (only asked of the unchanged one) *)
+  let same := negb has_tree || jval_eqb (model_doc json_type t tab doc) doc in
+  (* the extended-vocabulary generator's document of the same description: the same rendering with json_type_ext's
+     keywords; its validity is only compared with the validator's verdict (decimal is outside the meta-schema by design) *)
+  let xdoc := jval_of 200 (nth_sx 6 c) in
+  let xpassed := as_Z (nth_sx 7 c) =? 0 in
+  let xv := valid_schema 200 xdoc in
+  let same_x := negb has_tree || (jval_eqb (model_doc json_type_ext t tab xdoc) xdoc && Bool.eqb xv xpassed) in
   (* the unchanged document must be valid; a mutated one only ties the predicate to the validator *)
   let good := if mutation =? 0 then passed && v else true in
-  verdict None good (Bool.eqb v passed) (4000 + mutation) (L [of_bool v; of_bool passed]).
+  verdict None good (Bool.eqb v passed && same && same_x)
+    (4000 + mutation + (if has_tree && negb xv then 100 else 0))
+    (L [of_bool v; of_bool passed; of_bool same; of_bool same_x; of_bool xv; of_bool xpassed]).
 
 Definition judge (c : sx) : sx :=
   match as_Z (nth_sx 0 c) with
